@@ -13,3 +13,7 @@
 ; JSONValue: the values the properties quantify over (what encoding/json produces, plus Go's other numeric kinds)
 (define-fun spec!JSONValue ((x Any)) Bool
   (or (= x a!nil) ((_ is a!bool) x) ((_ is a!string) x) ((_ is a!slice.any) x) ((_ is a!map.string.any) x) (spec!numeric x)))
+
+; strconv.Atoi (assumed library contract: a function of its text; AtoiOK says the text is a decimal numeral in range)
+(declare-fun spec!Atoi (Str) (_ BitVec 64))
+(declare-fun spec!AtoiOK (Str) Bool)
